@@ -4,7 +4,7 @@
     leaves un-emitted operations applied for the rest of the cycle, which only
     withholds capacity), but every successful call must still be admissible and
     the monitor must hold. *)
-From KaiV Require Export Run.Cycle Run.Decision Model.Snapshot.
+From KaiV Require Export Run.Cycle Run.Decision Model.Snapshot Model.PodRequest.
 
 (** How the snapshot classifies a pod (pod_info.getTaskStatus: [task_status], Model/Snapshot.v) and whether
     NodeInfo.AddTasksToNode accounts it on the node it names. *)
@@ -98,8 +98,48 @@ Definition snapshot_monitor (s : snapcase) : bool :=
   && forallb (fun pn => existsb (fun q => Pos.eqb (wp_id q) (fst pn)) (w_pods w) && amem (snd pn) (w_nodes w)) (snap_binds s)
   && nodup_posb (map fst (snap_binds s)).
 
+(** [FRequest]: a generated pod spec (regular containers, init containers - flagged when restartable, i.e. sidecars -
+    and overhead, in the model's units), the request the scheduler reads for it ([rq_reading]:
+    pod_info.NewTaskInfo(pod).ResReq), the request by the upstream Kubernetes helper ([rq_reference]:
+    k8s.io/component-helpers/resource.PodRequests, plus one pod slot) and, for some pods, a packing world
+    ([rq_pack]: a node whose allocatable is a multiple of the reference request, [pk_pods] identical pending pods,
+    [pk_bound] of them bound by one real allocate action). *)
+Record packing := mkPK { pk_alloc : res; pk_bound : Z; pk_pods : Z }.
+Record reqcase := mkRQ {
+  rq_conts : list res; rq_inits : list (bool * res); rq_overhead : res;
+  rq_reading : res; rq_reference : res; rq_pack : option packing;
+}.
+Definition rq_spec (r : reqcase) : podspec := mkPS (rq_conts r) (map snd (rq_inits r)) (rq_overhead r).
+Definition rq_sidecar (r : reqcase) : bool := existsb fst (rq_inits r).
+Definition rscale (k : Z) (r : res) : res := mkRes (k * cpu r) (k * mem r) (k * gpu r) (k * pods r) (k * mig r) (k * ext r).
+Definition rle_all (a b : res) : bool :=
+  (cpu a <=? cpu b) && (mem a <=? mem b) && (gpu a <=? gpu b) && (pods a <=? pods b) && (mig a <=? mig b) && (ext a <=? ext b).
+(** the bound pods, each counted with [unit], fit the node *)
+Definition packing_within (r : reqcase) (unit : res) : bool :=
+  match rq_pack r with
+  | Some k => rle_all (rscale (pk_bound k) unit) (pk_alloc k) && (0 <=? pk_bound k) && (pk_bound k <=? pk_pods k)
+  | None => true
+  end.
+(** correspondence: the scheduler's reading is the model's [booked] (getPodResourceRequest treats every init
+    container, restartable or not, as an ordinary one), the upstream helper's answer is the model of the Kubernetes
+    rule ([k8s_request], sidecars included; equal to [pod_request] without sidecars: k8s_request_no_sidecar), and
+    the binds of the packing world fit the node in the scheduler's own units. *)
+Definition request_agrees (r : reqcase) : bool :=
+  req (booked (rq_spec r)) (rq_reading r)
+  && req (radd (k8s_request (rq_conts r) (rq_inits r) (rq_overhead r)) one_pod_slot) (rq_reference r)
+  && packing_within r (rq_reading r).
+(** monitor: the scheduler reads exactly the Kubernetes request, for every resource, and the pods bound in the
+    packing world, counted with their Kubernetes request, fit the node.  Pods with a restartable init container are
+    the known finding C01-sidecar-init-containers-under-read (flag 7): for them an under-reading or an oversubscribed
+    packing node is reported through the flag, not as a failure. *)
+Definition request_holds (r : reqcase) : bool :=
+  req (rq_reading r) (rq_reference r) && packing_within r (rq_reference r).
+Definition request_monitor (r : reqcase) : bool := rq_sidecar r || request_holds r.
+Definition request_flags (r : reqcase) : list nat :=
+  if rq_sidecar r && negb (rle_all (rq_reference r) (rq_reading r) && packing_within r (rq_reference r)) then [7%nat] else [].
+
 Inductive c01case := FCycle (k : ccase) | FFault (k : ccase) | FStatus (c : scase) | FDecision (d : dcase)
-                   | FSnapshot (s : snapcase).
+                   | FSnapshot (s : snapcase) | FRequest (r : reqcase).
 
 Definition guards_ok (k : ccase) : bool :=
   match replay (c_tasks k) (c_nodes k) (c_calls k) with
@@ -119,6 +159,7 @@ Definition model_agrees (c : c01case) : bool :=
                  && Bool.eqb (sc_accounted c) ((sc_node c || sc_br c) && active_used (sc_status c))
   | FDecision d => decision_agrees d
   | FSnapshot s => snapshot_agrees s
+  | FRequest r => request_agrees r
   end.
 Definition monitor_ok (c : c01case) : bool :=
   match c with
@@ -127,9 +168,10 @@ Definition monitor_ok (c : c01case) : bool :=
   | FStatus c => negb (occupies (sc_phase c) (sc_node c) (sc_br c)) || sc_accounted c
   | FDecision d => decision_monitor d
   | FSnapshot s => snapshot_monitor s
+  | FRequest r => request_monitor r
   end.
 Definition run_mismatches (cs : list (nat * c01case)) : list nat := failing (fun k => negb (model_agrees k)) cs.
 Definition run_monitor (cs : list (nat * c01case)) : list nat := failing (fun k => negb (monitor_ok k)) cs.
 Definition run_flags (cs : list (nat * c01case)) : list (nat * list nat) :=
   filter (fun p => negb (Nat.eqb (List.length (snd p)) 0))
-         (map (fun c => (fst c, match snd c with FCycle k => cycle_flags k | _ => [] end)) cs).
+         (map (fun c => (fst c, match snd c with FCycle k => cycle_flags k | FRequest r => request_flags r | _ => [] end)) cs).
